@@ -1,12 +1,13 @@
 """C12 -- see DESIGN.md section 5.  Deductive targets are added below the bounded import."""
 PROP = "C12"
 LEVEL = 'other'
-EXPLANATION = ("Deductive: one dispatch calls a prefix of the ordered listener list, each listener once and in order, the prefix ending only at the end of the list or because propagation was stopped, and an event that arrives stopped reaches no listener (loop invariant over an opaque listener model with a ghost call log); a registration appends the listener after those of the same event and priority and drops the event's sorted cache.  Bounded: exhaustive operation sequences up to length 4/6 against a registration-log model (covers the priority sort and the history clause).  Level `other`: the dispatch loop and the registration are proved, the priority order itself (`_sort_listeners`, built on sorted()) is decided by the bounded tier only.")
-LEVEL_NOTE = ("assumes: listeners are arbitrary callables that log themselves, may stop propagation, may raise, and do not touch the dispatcher's tables; the priority order of _sort_listeners (sorted(), external) and the frame of the nested tables are bounded only")
+EXPLANATION = ("Deductive: one dispatch calls a prefix of the ordered listener list, each listener once and in order, the prefix ending only at the end of the list or because propagation was stopped, and an event that arrives stopped reaches no listener (loop invariant over an opaque listener model with a ghost call log); dispatch() as a whole calls such a prefix of the cached ordered view of THIS event and nobody when the event has no listener; get_listeners hands out exactly the cached view and computes it whenever there is none; a registration appends the listener after those of the same event and priority and drops the event's cached view; nothing else in the class writes either table (AST frame obligation) - together: a listener registered after a dispatch takes part in the next one.  Bounded: exhaustive operation sequences up to length 4/6 against a registration-log model (covers the priority sort and the history clause).  Level `other`: the dispatch loop, the lookup, the cache discipline and the registration are proved, the priority order itself (`_sort_listeners`, built on sorted()) is decided by the bounded tier only.")
+LEVEL_NOTE = ("assumes: listeners are arbitrary callables that log themselves, may stop propagation, may raise, and do not touch the dispatcher's tables; _sort_listeners fills the view of the event it is asked for (its order: sorted(), external) - bounded only, as is the frame of the nested tables")
 from pyvc.contracts import REG as R
 from . import event_contracts as ec
 R.opaque_hook = ec.opaque_listener
-TARGETS = [ec.DD, ec.AL]
+TARGETS = [ec.DD, ec.AL] + ec.TARGETS_LOOKUP
+structural = ec.structural
 LEMMAS = []
 try:
     from .C12_bounded import bounded, BOUNDED_RULE  # noqa: F401
